@@ -40,12 +40,22 @@ def run_drivers(repo, verif, names, outdir, timeout=1500):
         import fcntl
         lock = open(os.path.join(tgt, ".verif-run.lock"), "w")
         fcntl.flock(lock, fcntl.LOCK_EX)
+        os.makedirs(outdir, exist_ok=True)
+        rawlog = os.path.join(outdir, "replay.raw.log")
         try:
-            r = subprocess.run(cmd, cwd=scratch, env=env, capture_output=True, text=True, timeout=timeout)
-            out = r.stdout + "\n" + r.stderr
-        except subprocess.TimeoutExpired:
-            out = ""
-            res["error"] = "timeout"
+            # output goes to a file so that a timeout still leaves what was printed (which driver, which program)
+            with open(rawlog, "w") as lf:
+                proc = subprocess.Popen(cmd, cwd=scratch, env=env, stdout=lf, stderr=subprocess.STDOUT, text=True, start_new_session=True)
+                try:
+                    proc.wait(timeout=timeout)
+                except subprocess.TimeoutExpired:
+                    res["error"] = "timeout after %ds" % timeout
+                    try:
+                        os.killpg(proc.pid, 9)
+                    except OSError:
+                        pass
+                    proc.wait()
+            out = open(rawlog, errors="replace").read()
         finally:
             fcntl.flock(lock, fcntl.LOCK_UN)
             lock.close()
